@@ -420,7 +420,7 @@ func (x *pmExec) groupEnd() bool {
 	good := x.gm.check(x.s, "c", 4*time.Second, wit)
 	// the group as a whole: nothing may keep allocating after the remote is gone
 	if d := a.delta(); d > allocBound(0) {
-		x.s.Violation("C15/allocation-out-of-proportion:c", fmt.Sprintf("the node allocated %d bytes (%.1f MiB) after the remote stopped sending", d, float64(d)/MiB), wit)
+		x.s.Violation("C15/allocation-out-of-proportion:c:keeps-allocating-after-remote-left", fmt.Sprintf("the node allocated %d bytes (%.1f MiB) after the remote stopped sending and left", d, float64(d)/MiB), wit)
 		good = false
 	}
 	x.repMu.Lock()
